@@ -16,8 +16,16 @@ import (
 //	long_list/<n>  one item whose attribute "big" (and, for logs, a second
 //	               record whose body) is a list of n small integers
 //	long_map/<n>   the same with a map of n entries
+//	haul/<n>, haulwide/<n>   a long-haul batch of n items (haulInput)
 func synthInput(signal, synth string) (Input, error) {
 	kind, arg, _ := strings.Cut(synth, "/")
+	if kind == "haul" || kind == "haulwide" {
+		n, err := strconv.Atoi(arg)
+		if err != nil || n < 0 {
+			return Input{}, fmt.Errorf("bad synthetic batch %q", synth)
+		}
+		return haulInput(signal, n, kind == "haulwide"), nil
+	}
 	n, err := strconv.Atoi(arg)
 	if err != nil || n < 0 {
 		return Input{}, fmt.Errorf("bad synthetic batch %q", synth)
@@ -67,4 +75,99 @@ func synthInput(signal, synth string) (Input, error) {
 		return Input{}, fmt.Errorf("unknown signal %q", signal)
 	}
 	return in, nil
+}
+
+// haulInput is the batch of a long-haul stream (DESIGN.md §7, C01-C03): n
+// items with the SAME ids in every batch, so that after the first batch the
+// dictionaries are stationary and the memory a consumer needs per batch does
+// not grow.
+func haulInput(signal string, n int, wide bool) Input {
+	attrs := func(m pcommon.Map, id int) {
+		s := strconv.Itoa(id)
+		m.PutStr("k", "v"+s)
+		m.PutInt("i", int64(id))
+		if wide {
+			m.PutDouble("d", float64(id)+0.5)
+			m.PutEmptyBytes("y").FromRaw([]byte(s))
+		}
+	}
+	in := Input{Signal: signal}
+	switch signal {
+	case Traces:
+		in.Traces = ptrace.NewTraces()
+		rs := in.Traces.ResourceSpans().AppendEmpty()
+		rs.Resource().Attributes().PutStr("host", "h")
+		ss := rs.ScopeSpans().AppendEmpty()
+		ss.Scope().SetName("scope")
+		ss.Spans().EnsureCapacity(n)
+		for id := 0; id < n; id++ {
+			s := strconv.Itoa(id)
+			sp := ss.Spans().AppendEmpty()
+			sp.SetName("n" + s)
+			var tid pcommon.TraceID
+			copy(tid[:], "t"+s)
+			sp.SetTraceID(tid)
+			var sid pcommon.SpanID
+			copy(sid[:], s)
+			sp.SetSpanID(sid)
+			sp.SetStartTimestamp(pcommon.Timestamp(1000 + id))
+			sp.SetEndTimestamp(pcommon.Timestamp(2000 + 2*id))
+			attrs(sp.Attributes(), id)
+			if wide {
+				ev := sp.Events().AppendEmpty()
+				ev.SetName("e" + s)
+				attrs(ev.Attributes(), id)
+				lk := sp.Links().AppendEmpty()
+				lk.SetTraceID(tid)
+				attrs(lk.Attributes(), id)
+			}
+		}
+	case Logs:
+		in.Logs = plog.NewLogs()
+		rl := in.Logs.ResourceLogs().AppendEmpty()
+		rl.Resource().Attributes().PutStr("host", "h")
+		sl := rl.ScopeLogs().AppendEmpty()
+		sl.Scope().SetName("scope")
+		sl.LogRecords().EnsureCapacity(n)
+		for id := 0; id < n; id++ {
+			s := strconv.Itoa(id)
+			l := sl.LogRecords().AppendEmpty()
+			l.Body().SetStr("body " + s)
+			l.SetSeverityText("sev" + strconv.Itoa(id%20))
+			l.SetTimestamp(pcommon.Timestamp(1000 + id))
+			var tid pcommon.TraceID
+			copy(tid[:], "t"+s)
+			l.SetTraceID(tid)
+			attrs(l.Attributes(), id)
+		}
+	default:
+		in.Metrics = pmetric.NewMetrics()
+		rm := in.Metrics.ResourceMetrics().AppendEmpty()
+		rm.Resource().Attributes().PutStr("host", "h")
+		sm := rm.ScopeMetrics().AppendEmpty()
+		sm.Scope().SetName("scope")
+		sm.Metrics().EnsureCapacity(n)
+		for id := 0; id < n; id++ {
+			s := strconv.Itoa(id)
+			m := sm.Metrics().AppendEmpty()
+			m.SetName("n" + s)
+			m.SetUnit("u" + strconv.Itoa(id%50))
+			if wide && id%2 == 1 {
+				dp := m.SetEmptyHistogram().DataPoints().AppendEmpty()
+				dp.SetCount(uint64(id))
+				dp.BucketCounts().FromRaw([]uint64{uint64(id), 1})
+				dp.ExplicitBounds().FromRaw([]float64{float64(id)})
+				attrs(dp.Attributes(), id)
+				ex := dp.Exemplars().AppendEmpty()
+				ex.SetDoubleValue(float64(id))
+				attrs(ex.FilteredAttributes(), id)
+				continue
+			}
+			dp := m.SetEmptyGauge().DataPoints().AppendEmpty()
+			dp.SetIntValue(int64(id))
+			dp.SetTimestamp(pcommon.Timestamp(1000 + id))
+			attrs(dp.Attributes(), id)
+		}
+	}
+	return in
 }
